@@ -183,7 +183,7 @@ def run_check(cd, tier, seed):
             if len(exs) != len(idxs):
                 raise Infra('replay produced %d executions for %d schedules' % (len(exs), len(idxs)))
             for (start, xe), pi in zip(exs, idxs):
-                mm = core.compare_replay(expected[pi], xe, cd.fields)
+                mm = core.compare_replay(expected[pi], xe, cd.fields, getattr(cd, 'ignore_driver', False))
                 replayed += 1
                 n_here += 1
                 if mm is not None:
